@@ -3,6 +3,7 @@ package sim
 import (
 	"fmt"
 	"math/big"
+	"strings"
 	"time"
 )
 
@@ -577,6 +578,10 @@ func (p *RevProfile) genWorld(t *Tape, sc *RevScenario, id int) *World {
 				s.Fault = p.genFault(t, sc, "ocsp")
 			}
 			s.Latency = genLatency(t, p.LatMax)
+			if i > 0 && s.URLKind == UNormal && cp.OCSP[i-1].URLKind == UNormal && t.Bool(5) {
+				// the same responder listed twice in a row (legal, unusual)
+				s.Host, s.URL = cp.OCSP[i-1].Host, cp.OCSP[i-1].URL
+			}
 			cp.OCSP = append(cp.OCSP, s)
 		}
 		for i := 0; i < nC; i++ {
@@ -585,6 +590,17 @@ func (p *RevProfile) genWorld(t *Tape, sc *RevScenario, id int) *World {
 				s.URLKind = 1 + t.Choose(nURLKinds-1)
 			}
 			s.URL = makeURL(s.URLKind, s.Host, []string{"/ca.crl", "/crl/ca.crl?v=2", "/", ""}[t.Weighted(76, 8, 8, 8)])
+			if i > 0 && s.URLKind == UNormal && cp.CRL[i-1].URLKind == UNormal && !strings.Contains(cp.CRL[i-1].URL, "?") && t.Bool(7) {
+				// a second distribution point on the same host whose URL differs
+				// from the previous one only in letter case or in the query
+				s.Host = cp.CRL[i-1].Host
+				prev := cp.CRL[i-1].URL
+				if t.Bool(50) || !strings.HasSuffix(prev, "/ca.crl") {
+					s.URL = prev + "?part=2"
+				} else {
+					s.URL = strings.TrimSuffix(prev, "/ca.crl") + "/CA.crl"
+				}
+			}
 			s.BaseNum = int64(10 + t.Choose(5))
 			dev := faulty && sc.Config >= 2 && t.Bool(p.PSrcFault)
 			s.Base = p.genCRLPlan(t, sc, truth, dev, false)
@@ -598,7 +614,8 @@ func (p *RevProfile) genWorld(t *Tape, sc *RevScenario, id int) *World {
 				nd := 1 + t.Weighted(70, 20, 10)
 				for j := 0; j < nd; j++ {
 					// advertised order deliberately differs from lexicographic order
-					s.DeltaURL = append(s.DeltaURL, fmt.Sprintf("http://d%d-%d-%d.w%d.sim/delta.crl", pos, i, 2-j, id))
+					dk := t.Weighted(86, 0, 6, 5, 0, 0, 0, 0, 0, 3) // mostly plain http; https / ldap / unparsable locations are skipped by a conforming fetcher
+					s.DeltaURL = append(s.DeltaURL, makeURL(dk, fmt.Sprintf("d%d-%d-%d.w%d.sim", pos, i, 2-j, id), "/delta.crl"))
 					f := Fault{}
 					if faulty && sc.Config != 2 && t.Bool(p.PSrcFault) {
 						f = p.genFault(t, sc, "delta")
